@@ -422,7 +422,21 @@ func runPool(p poolParams) *scen.Outcome {
 	}
 	// reclaim: after everybody has been quiet, connections must go away
 	quietAt := time.Duration(atomic.LoadInt64(&lastActivity))
-	if fin {
+	closeEarly := p.run%2 == 0 && !p.kills
+	if fin && closeEarly {
+		// Close while connections sit in the idle queue: after KeepAlive + 2
+		// ticks they have been retired, and IdleConnTimeout has not expired
+		// for the longer settings
+		if d := quietAt + p.keepAlive + 2200*time.Millisecond - r.now(); d > 0 {
+			time.Sleep(d)
+		}
+		synctest.Wait()
+		for _, v := range r.tr.VerifPool() {
+			out.Stats["idle_at_close"] += int64(v[1])
+			out.Stats["active_at_close"] += int64(v[0])
+		}
+	}
+	if fin && !closeEarly {
 		deadline := quietAt + p.keepAlive + p.idleTO + 2*time.Second + 100*time.Millisecond
 		if d := deadline - r.now(); d > 0 {
 			time.Sleep(d)
